@@ -28,8 +28,16 @@ attributes" / the `size`/`unsigned` section), never from pony's converters:
                 to a Decimal attribute is the decimal number the float prints as, Decimal(repr(v)) -- repr() is Python's
                 shortest string that round-trips, i.e. the literal the program wrote (0.3 is 0.3, not its binary expansion
                 0.299999999999999988897...).  This is the only reading under which the value the column ends up holding
-                (0.30 at any declarable scale) is the value that was validated.  Other coercions (str -> number,
-                bool -> int, float -> int, Decimal -> float) stay 'unspecified' and are never generated.
+                (0.30 at any declarable scale) is the value that was validated.  A str given to an int attribute that is
+                the canonical decimal literal of an integer (str(n): digits with an optional '-') denotes n; a str that
+                int() cannot parse at all is not a value of the type; anything in between (' 5', '+5', '1_0') and the
+                other coercions (str -> float/Decimal, bool -> int, float -> int, Decimal -> float) stay 'unspecified' and
+                are never generated.
+  sql_default / volatile  "sql_default=True can be convenient when you have a Required attribute and the value for it is going
+                to be calculated in the database during the INSERT"; volatile: "the value of the attribute can be changed in
+                the database".  They only concern a MISSING value (the database supplies it): None / omission is left
+                'unspecified' for such attributes, every other rule -- a Required string cannot be empty, bounds, max_len,
+                py_check -- is unchanged.
 
 Values travel as JSON: ['int', 5] ['float', 1.5] ['Decimal', '1.50'] ['str', ' a '] ['bool', true] ['None'].
 """
@@ -144,12 +152,13 @@ def decl_problem(spec):
     if o.get('unique') and kind == 'Optional' and o.get('nullable') is False: return 'optional unique must be nullable'
     pc = spec.get('py_check')
     if pc is not None and pc not in PY_CHECKS_FOR[t]: return 'py_check'
+    if db_filled(spec) and ('default' in spec or kind == 'PrimaryKey'): return 'sql_default/volatile with default or pk'
     if 'default' in spec:
         d = dec(spec['default'])
         if kind == 'PrimaryKey': return 'default on pk'
         if d is None: return 'default None is outside the asserted domain'
         if d == '' and kind != 'Optional': return "default ''"
-        if d is not None and coerce(t, d) is NotImplemented: return 'default type'
+        if d is not None and coerce(t, d) in (NotImplemented, NotAValue): return 'default type'
         if verdict(dict(spec, py_check=None), d)[0] == 'unspecified': return 'default value outside the asserted domain'
     return None
 
@@ -166,10 +175,22 @@ def required(spec):
 
 
 # ---------------------------------------------------------------- the predicate
+NotAValue = type('NotAValue', (), {'__repr__': lambda self: 'NotAValue'})()
+
+
+def db_filled(spec):
+    o = spec['opts']
+    return bool(o.get('sql_default')) or bool(o.get('volatile'))
+
+
 def coerce(t, val):
     """the number a numeric input of another numeric type denotes, in the declared type; NotImplemented if the
     conversion is outside the asserted domain"""
     if type(val) is PYTYPE[t]: return val
+    if t == 'int' and type(val) is str:
+        try: n = int(val)
+        except ValueError: return NotAValue
+        return n if str(n) == val else NotImplemented
     if t == 'float' and type(val) is int and abs(val) <= 2 ** 53: return float(val)
     if t == 'Decimal' and type(val) is int: return Decimal(val)
     if t == 'Decimal' and type(val) is float and val == val and abs(val) != float('inf'): return Decimal(repr(val))
@@ -186,12 +207,14 @@ def verdict(spec, val):
     """-> ('accept', normalised) | ('reject', reason) | ('unspecified', reason)"""
     t, o = spec['type'], spec['opts']
     if val is None:
+        if db_filled(spec): return 'unspecified', 'missing value of an attribute the database fills in'
         if required(spec): return 'reject', 'required'
         if not nullable(spec): return 'reject', 'None for a non-nullable optional string'
         return 'accept', None
     if type(val) is not PYTYPE[t]:
         given = val
         val = coerce(t, val)
+        if val is NotAValue: return 'reject', 'not a value of the declared type'
         if val is NotImplemented: return 'unspecified', 'coercion from %s' % type(given).__name__
         if t == 'Decimal' and not decimal_fits(o, val) and not _outside_bounds(o, val):
             return 'unspecified', 'more digits than the declared precision/scale'
@@ -230,6 +253,7 @@ def _outside_bounds(o, val):
 
 def omitted_verdict(spec):
     """what an omitted attribute must become on creation: ('accept', value) | ('reject', reason)"""
+    if db_filled(spec): return 'unspecified', 'the database supplies the value'
     if 'default' in spec:
         return verdict(spec, dec(spec['default']))
     if required(spec): return 'reject', 'required'
@@ -277,6 +301,10 @@ def candidates(spec, extra=()):
         for b in bounds: pts += [b - 1, b, b + 1, b - 2, b + 2]
         pts += [2 ** 63 - 1, 2 ** 63, -(2 ** 63), -(2 ** 63) - 1, 2 ** 64, 2 ** 31, -(2 ** 31) - 1]
         out += pts
+        out += ['0', 'x']                               # the same numbers given as their decimal literal
+        for b in bounds: out += [str(b - 1), str(b + 1)]
+        for b in (mn, mx):
+            if b is not None: out.append(str(b))
     elif t == 'float':
         pts = [0.0, -0.0, 1.5, -1.5, 100.0, 100.5, -0.25, 1e300, -1e300, 1e-300]
         for b in (mn, mx):
@@ -334,7 +362,7 @@ def near_bound(spec, val):
     t, o = spec['type'], spec['opts']
     if val is None: return True
     val = coerce(t, val)
-    if val is NotImplemented: return False
+    if val is NotImplemented or val is NotAValue: return False
     mn, mx = opt_value(o, 'min'), opt_value(o, 'max')
     if t == 'int':
         bounds = [b for b in (mn, mx) if b is not None] + list(int_range(o) or INT32)
